@@ -14,6 +14,7 @@ inductive PyExc where
   | valueError | dataOverflow | indexError | keyError | typeError | attributeError | assertionError
   | unicodeError | lookupError | zeroDivisionError
   | stopIteration    -- `next()` on an exhausted iterator
+  | unboundLocalError  -- read of a local that no executed statement has assigned (round 3: a local first assigned inside a loop)
   | fuelExhausted    -- NOT a Python exception: a translated `while` ran out of its declared fuel (Gen.Py.whileM)
   deriving DecidableEq, Repr, Inhabited
 
